@@ -2,6 +2,16 @@ from . import rules_c02, rules_geom, inputs
 from .check_c01 import QUICK_SQUARES
 
 
+def self_controls(prog, facts):
+    from . import perturb
+    from spec import geometry as G
+
+    def rule(c, p2):
+        rules_c02.check_display_traps(c, p2)
+        rules_geom.check_constants(c, p2, which=['TRAP_MASK'], rule='C10.F')
+    return perturb.run_controls([('trap mask differs from the printed markers',
+                                  lambda f: perturb.perturb_const(f, 'TRAP_MASK', G.TRAP_MASK ^ (1 << 45) ^ (1 << 44)), rule, 'C10.F')], facts)
+
 def run(ctx, prog, facts, tier):
     I = inputs.make_interp(prog, fuel=5000000)
     mvs = rules_c02.moves(True, QUICK_SQUARES if tier == 'quick' else None)
